@@ -239,14 +239,14 @@ def run(ctx, g, cases, env):
         for i, (t, v, cenv, tn, pybytes) in enumerate(sel):
             if i >= len(replies):
                 # the first case left without a reply is the one the JVM hung or died on; the rest were never tried
-                _disagree(ctx, tn, pybytes, note or "NO-REPLY", to_sx(v, cenv), "no reply from the Java codec")
+                _disagree(ctx, tn, pybytes, note or "NO-REPLY", to_sx(v, cenv, t), "no reply from the Java codec")
                 ctx.count("java:cases_not_run", len(sel) - i - 1)
                 break
             ctx.count("java:cases")
             ctx.count("java:type:" + t[0])
             why = judge(ctx, g, t, v, cenv, tn, pybytes, replies[i])
             if why:
-                _disagree(ctx, tn, pybytes, replies[i][:4000], to_sx(v, cenv), why)
+                _disagree(ctx, tn, pybytes, replies[i][:4000], to_sx(v, cenv, t), why)
     finally:
         shutil.rmtree(tmp, ignore_errors=True)
 
@@ -285,7 +285,7 @@ def judge(ctx, g, t, v, cenv, tn, pybytes, reply):
     dec = impl_decode(g, jbytes, tn, cenv)
     if dec[0] != "ok":
         return "this API rejects the bytes the Java codec produced (%s)" % dec[1]
-    if canon(to_sx(dec[1], cenv)) != cexp:
+    if canon(to_sx(dec[1], cenv, t)) != cexp:
         return "the Java re-encoding decodes (by this API) to another value"
     if not has_unordered(t) and jbytes != pybytes:
         return "the Java re-encoding differs from the bytes this API produced"
